@@ -256,6 +256,14 @@ RNE = z3.RNE()
 FP_SORT = {'float': z3.Float32(), 'double': z3.Float64()}
 
 
+def fp_comm(op, a, b):
+    """commutative FP operation with operands in a canonical order, so that a*b and b*a are the same term
+    (the solver cannot afford to prove commutativity of a bit-blasted double multiplier)"""
+    if a.get_id() > b.get_id():
+        a, b = b, a
+    return z3.fpAdd(RNE, a, b) if op == 'add' else z3.fpMul(RNE, a, b)
+
+
 def int_bits(t):
     if t[0] == 'i' and t[1:].isdigit():
         return int(t[1:])
@@ -1176,7 +1184,7 @@ class Engine:
         if op in ('fadd', 'fsub', 'fmul', 'fdiv', 'frem'):
             ty, x, y, flags = a
             x, y = self.val(st, x, ty, mod), self.val(st, y, ty, mod)
-            r = {'fadd': lambda: z3.fpAdd(RNE, x, y), 'fsub': lambda: z3.fpSub(RNE, x, y), 'fmul': lambda: z3.fpMul(RNE, x, y),
+            r = {'fadd': lambda: fp_comm('add', x, y), 'fsub': lambda: z3.fpSub(RNE, x, y), 'fmul': lambda: fp_comm('mul', x, y),
                  'fdiv': lambda: z3.fpDiv(RNE, x, y), 'frem': lambda: z3.fpRem(x, y)}[op]()
             env[ins.dst] = r
             return
@@ -1186,7 +1194,14 @@ class Engine:
         if op in ('sitofp', 'uitofp'):
             t1, x, t2 = a
             x = self.val(st, x, t1, mod)
-            env[ins.dst] = z3.fpSignedToFP(RNE, x, FP_SORT[t2]) if op == 'sitofp' else z3.fpUnsignedToFP(RNE, x, FP_SORT[t2])
+            # conversions go through a 64-bit signed value where that is exact, so that (double)(int32)x built here and
+            # float(x) built by an oracle over widened values are the same term
+            if op == 'sitofp':
+                env[ins.dst] = z3.fpSignedToFP(RNE, z3.SignExt(64 - x.size(), x) if x.size() < 64 else x, FP_SORT[t2])
+            elif x.size() < 64:
+                env[ins.dst] = z3.fpSignedToFP(RNE, z3.ZeroExt(64 - x.size(), x), FP_SORT[t2])
+            else:
+                env[ins.dst] = z3.fpUnsignedToFP(RNE, x, FP_SORT[t2])
             return
         if op in ('fptosi', 'fptoui'):
             t1, x, t2 = a
